@@ -1,5 +1,6 @@
 """C21 — field square roots and quadratic-residue tests are correct."""
 import random
+import signal
 
 PROPERTY = 'C21'
 ENGINE = 'UNIT'
@@ -38,6 +39,27 @@ def run(shard, rec):
         rec.inconclusive_because(f'harness: field {shard["field"]} rejected: {e}')
         return
     q = field.order
+    if field.ext_deg > 1 and field.ext_deg <= 6 and q < 10 ** 6:
+        # warm-up in sibling fields: same order, other irreducible moduli (per-field precomputations must not be shared between them)
+        from mpyc import finfields, gfpx
+        P = gfpx.GFpX(field.characteristic)
+        pol = P(field.characteristic ** field.ext_deg)           # X^d
+        sib = 0
+        for _ in range(4):
+            pol = P.next_irreducible(pol)
+            if pol.degree() != field.ext_deg:
+                break
+            if pol == field.modulus:
+                continue
+            G = finfields.GF(pol)
+            try:
+                for v in range(2, min(G.order, 12)):
+                    g = G(v)
+                    (g * g).sqrt()
+            except Exception:
+                pass
+            sib += 1
+        rec.count('sibling_fields_warmed', sib)
     F = RefFieldFast(field, ref) if field.ext_deg > 1 else ref.RefField(field.characteristic)
     fname = repr(shard['field'])
     rng = random.Random(f"c21/{shard['seed']}/{fname}")
@@ -53,6 +75,7 @@ def run(shard, rec):
             b = field(r)
             vals.append(int((b * b).value) if field.ext_deg > 1 else (b * b).value)        # a guaranteed square
         todo = vals
+    hung = 0
     for ai in todo:
         a = field(ai)
         ea = ref.elt(F, a)
@@ -65,7 +88,26 @@ def run(shard, rec):
         if bool(got) != exp_sqr:
             rec.violation(f'{fname}: is_sqr({ai}) = {got}, expected {exp_sqr}', {'mechanism': 'is_sqr'}, {'case': case}, case=case)
         if exp_sqr:
-            r = a.sqrt()
+            # watchdog: a square root in these fields takes well under a millisecond; 20 s without an answer is reported as non-termination
+            # (generous wall-clock bound, > 10^4 times the normal duration even on a loaded machine), any exception as a failure of sqrt
+            def _alarm(signum, frame):
+                raise TimeoutError('sqrt did not return within 20 s')
+            old_h = signal.signal(signal.SIGALRM, _alarm)
+            signal.alarm(20)
+            try:
+                r = a.sqrt()
+            except TimeoutError as ex:
+                hung += 1
+                rec.violation(f'{fname}: sqrt({ai}) of a square does not terminate ({ex})', {'mechanism': 'sqrt-hangs'}, {'case': case}, case=case)
+                if hung >= 2:
+                    break
+                continue
+            except Exception as ex:
+                rec.violation(f'{fname}: sqrt({ai}) of a square raised {type(ex).__name__}: {ex}', {'mechanism': 'sqrt-raises'}, {'case': case}, case=case)
+                continue
+            finally:
+                signal.alarm(0)
+                signal.signal(signal.SIGALRM, old_h)
             rec.count('sqrt_checked')
             if type(r) is not field or ref.elt(F, r * r) != ea:
                 rec.violation(f'{fname}: sqrt({ai})^2 = {ref.elt(F, r * r) if type(r) is field else r!r} != {ea}', {'mechanism': 'sqrt'}, {'case': case}, case=case)
